@@ -53,3 +53,14 @@ func (il *inputFieldList) get(name string) (i *InputField) {
 	}
 	return
 }
+
+func (il *inputFieldList) dup() (d inputFieldList) {
+	d.list = il.list
+	if il.dict != nil {
+		d.dict = make(map[string]*InputField, len(il.dict))
+		for k, v := range il.dict {
+			d.dict[k] = v
+		}
+	}
+	return
+}
